@@ -76,7 +76,7 @@ def bad : PErr → Bool
 
 /-- the diagnostics of the scan of a single file (scanner, assembly, context resolution) -/
 def early : PErr → Bool
-  | .scan _ | .oracleMiss _ _ | .includeSeen _ | .unknownDirective _ | .notAllowed _ | .noDirective _ | .param _ _ | .ctx _ _ => true
+  | .scan _ | .oracleMiss _ _ | .includeSeen _ | .unknownDirective _ | .notAllowed _ | .noDirective _ | .jsightNotFirst _ | .param _ _ | .ctx _ _ => true
   | _ => false
 
 theorem early_not_bad {e : PErr} (h : early e = true) : bad e = false := by
@@ -90,7 +90,11 @@ theorem flush_early (st : ASt) (e : PErr) (h : flush st = .error e) : early e = 
     simp only [hc] at h
     cases hp : place st.ctx.frames st.ctx.roots r.toDir with
     | error x => simp only [hp] at h; injection h with h; subst h; rfl
-    | ok c => simp [hp] at h
+    | ok c =>
+      simp only [hp] at h
+      split at h
+      · injection h with h; subst h; rfl
+      · cases h
 
 theorem step_early (d : Src) (banned : List Kind) (st : ASt) (lex : Lexeme) (cur : Nat) (e : PErr)
     (h : step d banned st lex cur = .error e) : early e = true := by
@@ -361,7 +365,11 @@ theorem flushF_bad (n : Nat) (st : ASt) (e : FErr) (h : flushF n st = .error e) 
     simp only [hc] at h
     cases hp : place st.ctx.frames st.ctx.roots r.toDir with
     | error x => simp only [hp] at h; injection h with h; subst h; rfl
-    | ok c => simp [hp] at h
+    | ok c =>
+      simp only [hp] at h
+      split at h
+      · injection h with h; subst h; rfl
+      · cases h
 
 theorem flushF_ok (n : Nat) (st : ASt) (e : FErr) (h : flushF n st = .error e) : okF e := by
   unfold flushF at h
@@ -371,7 +379,11 @@ theorem flushF_ok (n : Nat) (st : ASt) (e : FErr) (h : flushF n st = .error e) :
     simp only [hc] at h
     cases hp : place st.ctx.frames st.ctx.roots r.toDir with
     | error x => simp only [hp] at h; injection h with h; subst h; exact Or.inl rfl
-    | ok c => simp [hp] at h
+    | ok c =>
+      simp only [hp] at h
+      split at h
+      · injection h with h; subst h; exact Or.inl rfl
+      · cases h
 
 theorem find_go_some (path : Bytes) : ∀ (l : PFS) (i g : Nat) (c : Option Bytes),
     PFS.find.go path i l = some (g, c) → ∃ nm, i ≤ g ∧ l[g - i]? = some (nm, c)
@@ -746,9 +758,14 @@ theorem flush_idx (d : Src) (st : ASt) (hc : CurOK d st) :
       rcases place_error_id hp with rfl | rfl <;>
         exact ⟨(by intro j h; cases h), (by intro i hi; simp [lexLocated, ctxErrIdx, RDir.toDir] at hi; omega)⟩
     | ok c =>
-      refine ⟨(by simp), (fun st' h => ?_)⟩
-      injection h with h; subst h
-      intro r' h'; cases h'
+      simp only
+      split
+      · refine ⟨(fun e h => ?_), (by simp)⟩
+        injection h with h; subst h
+        exact ⟨(by intro j h; cases h), (by intro i hi; simp [lexLocated] at hi)⟩
+      · refine ⟨(by simp), (fun st' h => ?_)⟩
+        injection h with h; subst h
+        intro r' h'; cases h'
 
 theorem step_idx (d : Src) (banned : List Kind) (st : ASt) (lex : Lexeme) (cur : Nat)
     (hg : GoodLex d (lex, cur)) (hc : CurOK d st) :
